@@ -8,7 +8,7 @@ structured delivery history which is compared entry by entry, three-valued where
 import datetime as dt
 
 from ..kernel import Outcome, register, weighted
-from ..models.dispatch_model import DispatchModel, MWatcher, eq3
+from ..models.dispatch_model import DispatchModel, MWatcher, ModelReject, eq3
 
 PN = ('p0', 'p1', 'p2', 'p3')
 MAX_CALLS = 150
@@ -294,13 +294,21 @@ class Host:
                     seen.add(n)
                     items.append((n, self.vals.mk(v)))
             eng.update_bad(o, items, op['at'] % (len(items) + 1))
-        elif k == 'trigger':
+        elif k == 'raise_set':
+            # a failing callback that runs after every other one: the other watchers are served as usual, the caller sees
+            # the exception, and the object keeps dispatching normally afterwards
+            eng.raise_set(o, PN[op['p'] % np_], self.vals.mk(op['v']), op['q'])
+        elif k in ('trigger', 'trigger_bad'):
             names = []
             for p in op['ps']:
                 n = 'e' if p == 'e' else PN[p % np_]
                 if n not in names:
                     names.append(n)
-            eng.trigger(o, names)
+            if k == 'trigger_bad':
+                # a name that is no parameter: the call fails as a whole, nothing is triggered and nothing queued is lost
+                eng.trigger_bad(o, names, op['at'] % (len(names) + 1))
+            else:
+                eng.trigger(o, names)
         elif k == 'event':
             eng.set(o, 'e', True)
         elif k == 'slot':
@@ -368,6 +376,13 @@ class ModelEngine:
 
     def update_bad(self, oid, items, at):
         self.m.update(oid, items, fail_at=at)
+
+    def raise_set(self, oid, name, value, queued):
+        self.m.set(oid, name, value)
+        raise ModelReject()
+
+    def trigger_bad(self, oid, names, at):
+        raise ModelReject()
 
     def unwatch(self, w):
         self.m.unwatch(w)
@@ -476,6 +491,22 @@ class RealEngine:
             self.cbs[wid] = (cb_args, False)
             w.handle = o.param.watch(cb_args, list(params), what=what, onlychanged=spec['oc'], queued=spec['q'], precedence=spec['prec'])
         return w
+
+    def trigger_bad(self, oid, names, at):
+        names = list(names)
+        names.insert(at, 'no_such_parameter')
+        self.objs[oid].param.trigger(*names)
+
+    def raise_set(self, oid, name, value, queued):
+        o = self.objs[oid]
+
+        def failing(*events):
+            raise RuntimeError('callback failed')
+        h = o.param.watch(failing, [name], onlychanged=False, queued=queued, precedence=10 ** 6)
+        try:
+            setattr(o, name, value)
+        finally:
+            o.param.unwatch(h)
 
     def inherit(self, oid, src, name):
         pass        # the library copies the Parameter (and its watcher table) on the first class-level assignment
@@ -696,7 +727,8 @@ class DispatchWorld:
         trig_in_batch_ok = 'trigger_in_batch' not in avoid
         for _ in range(n_ops):
             o = rng.randrange(nobj)
-            table = [('set', 8), ('same', 3), ('update', 3), ('update_bad', 1 if cfg['ctx'] else 0), ('trigger', 2), ('slot', 1 if cfg['slots'] else 0),
+            table = [('set', 8), ('same', 3), ('update', 3), ('update_bad', 1 if cfg['ctx'] else 0), ('raise_set', 0 if cfg['ctx'] else 0.7),
+                     ('trigger', 2), ('trigger_bad', 0.5), ('slot', 1 if cfg['slots'] else 0),
                      ('event', 1 if cfg['event'] else 0), ('watch', 1), ('unwatch', 1)]
             if cfg['ctx']:
                 table += [('open', 3 if depth[o] < 4 else 0), ('close', 3 if depth[o] else 0)]
@@ -712,9 +744,13 @@ class DispatchWorld:
             elif k == 'update':
                 ops.append({'op': 'update', 'o': o, 'items': [[rng.randrange(cfg['n_params']), gen_value(rng, cfg['domain'])]
                                                              for _ in range(rng.randint(1, 3))]})
+            elif k == 'raise_set':
+                ops.append({'op': 'raise_set', 'o': o, 'p': rng.randrange(cfg['n_params']), 'v': gen_value(rng, cfg['domain']), 'q': rng.random() < 0.6})
             elif k == 'update_bad':
                 items = [[rng.randrange(cfg['n_params']), gen_value(rng, cfg['domain'])] for _ in range(rng.randint(1, 3))]
                 ops.append({'op': 'update_bad', 'o': o, 'items': items, 'at': rng.randint(0, 3)})
+            elif k == 'trigger_bad':
+                ops.append({'op': 'trigger_bad', 'o': o, 'ps': [rng.randrange(cfg['n_params']) for _ in range(rng.randint(0, 2))], 'at': rng.randint(0, 2)})
             elif k == 'trigger':
                 ps = [rng.randrange(cfg['n_params']) for _ in range(rng.randint(1, 2))]
                 if cfg['event'] and rng.random() < 0.3 and not depth[o]:
@@ -809,7 +845,7 @@ class DispatchWorld:
         for i, op in enumerate(case['ops']):
             if op['op'] == 'open':
                 depth += 1
-            if depth or op['op'] in ('trigger', 'update', 'update_bad', 'close', 'event'):
+            if depth or op['op'] in ('trigger', 'trigger_bad', 'update', 'update_bad', 'close', 'event'):
                 ctx_ops.add(i)
             if op['op'] == 'close' and depth:
                 depth -= 1
